@@ -18,7 +18,10 @@ extern "C" int pthread_create(pthread_t *t, const pthread_attr_t *a, void *(*fn)
 }
 
 // half-open Cox-de Boor value (the convention of the fitter)
-static LD Bh(const std::vector<double> &k, int i, int p, LD x) {
+static LD Bh_open(const std::vector<double> &k, int i, int p, LD x);
+// basis value the way a table evaluates it: half-open intervals, except that on the closing knot the limit from the left is taken (the point belongs to the table's range)
+static LD Bh(const std::vector<double> &k, int i, int p, LD x) { if (x == (LD)k.back() && k.front() < k.back()) x = (LD)std::nextafter(k.back(), k.front()); return Bh_open(k, i, p, x); }
+static LD Bh_open(const std::vector<double> &k, int i, int p, LD x) {
 	if (p == 0) return (x >= k[i] && x < k[i + 1]) ? 1 : 0;
 	LD d1 = (LD)k[i + p] - k[i], d2 = (LD)k[i + p + 1] - k[i + 1];
 	LD a = d1 != 0 ? (x - k[i]) / d1 * Bh(k, i, p - 1, x) : 0, b = d2 != 0 ? ((LD)k[i + p + 1] - x) / d2 * Bh(k, i + 1, p - 1, x) : 0;
@@ -59,6 +62,7 @@ static Problem gen_problem(Rng &r, int maxdim, size_t maxcoef, bool mono) {
 			std::vector<double> c;
 			for (int i = 0; i < np; i++) c.push_back(k[0] + (k.back() - k[0]) * (0.002 + 0.996 * (i + r.U() * 0.9) / np));
 			if (r.coin(0.2)) c[r.below(np)] = k[1 + r.below(nk - 2)]; // an abscissa exactly on an interior knot
+			if (r.coin(0.12)) c[r.below(np)] = k[nk - 1];               // ... and one on the closing knot of the range, where the table evaluates to its limit from the left
 			if (r.coin(0.5)) for (int i = np - 1; i > 0; i--) std::swap(c[i], c[r.below(i + 1)]);    // unsorted abscissae
 			npt *= np; if (npt > 60000) { ok = false; break; }
 			p.ord.push_back(o); p.por.push_back(po); p.kn.push_back(k); p.co.push_back(c); p.n.push_back(nax);
@@ -253,7 +257,7 @@ static void run_C09(const Args &a, long cs) {
 		if (variant == 1) {
 			// zero-weight entries with arbitrary values at arbitrary grid cells, then shuffle the listing order
 			size_t extra = 1 + r.below(10);
-			for (size_t e = 0; e < extra; e++) { std::vector<unsigned> I(p.nd); for (int d = 0; d < p.nd; d++) I[d] = (unsigned)r.below(p.co[d].size()); q.idx.push_back(I); q.y.push_back((r.U() - 0.5) * 1e6); w.push_back(0.0); }
+			for (size_t e = 0; e < extra; e++) { std::vector<unsigned> I(p.nd); for (int d = 0; d < p.nd; d++) I[d] = (unsigned)r.below(p.co[d].size()); q.idx.push_back(I); double junk = (r.U() - 0.5) * 1e6; if (r.coin(0.3)) { static const double nf[] = {NAN, INFINITY, -INFINITY, 1e300}; junk = nf[r.below(4)]; } q.y.push_back(junk); w.push_back(0.0); }
 			perm.resize(q.idx.size()); for (size_t i = 0; i < perm.size(); i++) perm[i] = i;
 			for (size_t i = perm.size() - 1; i > 0; i--) std::swap(perm[i], perm[r.below(i + 1)]);
 		}
